@@ -564,7 +564,7 @@ Qed.
 (* control-neutral transitions: only writers, the map and plain callbacks change              *)
 (* ------------------------------------------------------------------------------------------ *)
 Definition plain (it : qitem) : Prop :=
-  match it with QClose _ | QRemove _ | QWfc _ | QNop => True | _ => False end.
+  match it with QClose _ | QRemove _ _ | QWfc _ | QNop => True | _ => False end.
 
 Definition same_ctl (s s' : state) : Prop :=
   s_writing s' = s_writing s /\ s_verified s' = s_verified s /\ s_io s' = s_io s
@@ -1398,8 +1398,7 @@ Qed.
 Definition Reg (s : state) : Prop :=
   NoDup (map fst (s_map s))
   /\ (forall i w, nth_error (s_ws s) i = Some w -> w_fut w = FPending -> In (w_key w, i) (s_map s))
-  /\ (forall k j w, In (QRemove k) (s_q s) -> In (k, j) (s_map s) -> nth_error (s_ws s) j = Some w ->
-       fut_done (w_fut w) = true)
+  /\ (forall k j, In (QRemove k j) (s_q s) -> exists w, nth_error (s_ws s) j = Some w /\ fut_done (w_fut w) = true)
   /\ (forall k j, In (k, j) (s_map s) -> (j < length (s_ws s))%nat).
 
 Lemma Reg_init : Reg init.
@@ -1416,14 +1415,14 @@ Proof.
     destruct (fut_done (w_fut w)) eqn:D.
     + destruct (wtrans_done_keeps _ _ _ Wt D) as (X & _). congruence.
     + apply fut_done_false; auto.
-  - intros k j' x Hq Hm Hn. apply in_app_or in Hq.
-    apply nth_error_upd_cases in Hn. destruct Hq as [Hq|Hq].
-    + destruct Hn as [(-> & -> & _)|(Hne & Hn)]; [|eapply R3; eauto].
-      pose proof (R3 k j w Hq Hm Hj) as D. destruct (wtrans_done_keeps _ _ _ Wt D) as (X & _). rewrite Ew, X; auto.
+  - intros k j' Hq. apply in_app_or in Hq. destruct Hq as [Hq|Hq].
+    + destruct (R3 k j' Hq) as (w0 & N0 & D0). destruct (Nat.eq_dec j j') as [<-|Hne].
+      * rewrite Hj in N0. inversion N0; subst w0. exists w'. erewrite nth_error_upd_eq by eauto. split; auto.
+        destruct (wtrans_done_keeps _ _ _ Wt D0) as (X & _). rewrite Ew, X; auto.
+      * exists w0. rewrite nth_error_upd_neq by auto. auto.
     + destruct fl; simpl in Hq; [|tauto]. destruct Hq as [Hq|[Hq|[Hq|[]]]]; try discriminate.
-      inversion Hq; subst k. destruct (wt_fire _ _ Wt w) as (P1 & P2); [congruence|].
-      assert (j' = j) by (eapply NoDup_keys_inj; eauto). subst j'.
-      destruct Hn as [(_ & -> & _)|(Hne & _)]; [|contradiction]. rewrite Ew; auto.
+      inversion Hq; subst k j'. destruct (wt_fire _ _ Wt w) as (P1 & P2); [congruence|].
+      exists w'. erewrite nth_error_upd_eq by eauto. split; auto. rewrite Ew; auto.
   - intros k j' Hm. rewrite upd_length. eauto.
 Qed.
 
@@ -1510,9 +1509,9 @@ Proof.
     eapply (fold_close_done i (s_map s) s j); eauto. eapply in_snd; eauto.
 Qed.
 
-Lemma Reg_of_NP s : NP s -> s_map s = [] -> Reg s.
+Lemma Reg_clear_map s : Reg s -> NP s -> Reg (set_map [] s).
 Proof.
-  intros Np Em. unfold Reg. rewrite Em. simpl. repeat split; try tauto. constructor.
+  intros (R1 & R2 & R3 & R4) Np. unfold Reg; simpl. repeat split; auto; try tauto. constructor.
   intros i w Hn P. pose proof (Np i w Hn) as D. rewrite P in D. discriminate.
 Qed.
 
@@ -1520,12 +1519,12 @@ Lemma NP_ws s s' : s_ws s' = s_ws s -> NP s -> NP s'.
 Proof. intros E Np i w Hn. rewrite E in Hn. eauto. Qed.
 
 Lemma Reg_sub s q' : (forall it, In it q' -> In it (s_q s)) -> Reg s -> Reg (set_q q' s).
-Proof. intros Q (R1 & R2 & R3 & R4). unfold Reg; simpl. repeat split; auto. intros; eapply R3; eauto. Qed.
+Proof. intros Q (R1 & R2 & R3 & R4). unfold Reg; simpl. repeat split; auto. intros k j Hq; apply (R3 k j); auto. Qed.
 
 Lemma Reg_grow_q s s' : s_ws s' = s_ws s -> s_map s' = s_map s ->
-  (forall k, In (QRemove k) (s_q s') -> In (QRemove k) (s_q s)) -> Reg s -> Reg s'.
+  (forall k j, In (QRemove k j) (s_q s') -> In (QRemove k j) (s_q s)) -> Reg s -> Reg s'.
 Proof.
-  intros E1 E2 Q (R1 & R2 & R3 & R4). unfold Reg. rewrite E1, E2. repeat split; auto. intros; eapply R3; eauto.
+  intros E1 E2 Q (R1 & R2 & R3 & R4). unfold Reg. rewrite E1, E2. repeat split; auto. intros k j Hq; apply (R3 k j); auto.
 Qed.
 
 Lemma Reg_run_item it r s : Reg s -> s_q s = it :: r -> Reg (run_item kd cb it (set_q r s)).
@@ -1534,29 +1533,38 @@ Proof.
   assert (R0 : Reg (set_q r s)). { apply Reg_sub; auto. intros x Hx. rewrite Eq. right; auto. }
   destruct it; simpl.
   - eapply Reg_app_w; eauto. apply (wtrans_close None).
-  - destruct R as (R1 & R2 & R3 & R4). unfold Reg; simpl. repeat split.
+  - destruct R as (R1 & R2 & R3 & R4). unfold map_del_if. change (s_map (set_q r s)) with (s_map s).
+    destruct (lookup k (s_map s)) as [j0|] eqn:Lk; [|exact R0].
+    destruct (Nat.eqb_spec j0 i) as [->|Hne]; [|exact R0].
+    unfold Reg; simpl. repeat split.
     + apply NoDup_map_del; auto.
-    + intros i w Hn P. apply In_map_del_other; auto. intros E.
-      assert (D : fut_done (w_fut w) = true). { eapply (R3 k i w); eauto. rewrite Eq; left; auto. rewrite <- E; auto. }
+    + intros i' w Hn P. pose proof (R2 i' w Hn P) as X. apply In_map_del_other; auto. intros E.
+      rewrite E in X. rewrite (lookup_In _ _ _ R1 X) in Lk. inversion Lk; subst i'.
+      destruct (R3 k i) as (w0 & N0 & D); [rewrite Eq; left; auto|]. rewrite Hn in N0. inversion N0; subst w0.
       rewrite P in D; discriminate.
-    + intros k' j w Hq Hm Hn. apply In_map_del in Hm. eapply R3; eauto. rewrite Eq; right; auto.
+    + intros k' j Hq. apply (R3 k' j). rewrite Eq; right; auto.
     + intros k' j Hm. apply In_map_del in Hm. eauto.
   - change (s_ws (set_q r s)) with (s_ws s). destruct (nth_error (s_ws s) i) eqn:Hi; auto.
     destruct (w_fut w) eqn:Ef; auto.
     assert (Np : NP (close_others i (set_q r s))).
     { apply NP_close_others; auto. simpl. intros w0 Hw0. rewrite Hi in Hw0. inversion Hw0; subst. rewrite Ef; auto. }
-    apply Reg_of_NP.
-    + eapply NP_ws; [apply save_verified_ws|auto].
+    assert (Rc : Reg (close_others i (set_q r s))).
+    { unfold close_others in *. apply Reg_clear_map; [|eapply NP_ws; [|exact Np]; reflexivity].
+      apply Reg_fold; auto. intros x st Hst. destruct (Nat.eqb (snd x) i); auto.
+      eapply Reg_app_w; eauto. apply (wtrans_close None). }
+    eapply Reg_grow_q; [apply save_verified_ws| | |exact Rc].
     + unfold save_verified. destruct (s_verified _); auto. destruct (writeable _ _); auto.
+    + intros k j Hq. unfold save_verified in Hq. destruct (s_verified _); auto. destruct (writeable _ _); auto.
+      simpl in Hq. apply in_app_or in Hq. destruct Hq as [Hq|Hq]; auto. simpl in Hq; intuition discriminate.
   - destruct kd.
     + eapply Reg_grow_q; [| | |exact R0]; auto.
     + change (s_store (set_q r s)) with (s_store s).
-      destruct (s_store s); (eapply Reg_grow_q; [| | |exact R0]; auto); simpl; intros k Hq;
+      destruct (s_store s); (eapply Reg_grow_q; [| | |exact R0]; auto); simpl; intros k j Hq;
         apply in_app_or in Hq; destruct Hq as [Hq|Hq]; auto; unfold done_cbs in Hq; destruct cb; simpl in Hq; intuition discriminate.
-  - eapply Reg_grow_q; [| | |exact R0]; auto. simpl. intros k Hq.
+  - eapply Reg_grow_q; [| | |exact R0]; auto. simpl. intros k j Hq.
     apply in_app_or in Hq; destruct Hq as [Hq|Hq]; auto. simpl in Hq; intuition discriminate.
   - auto.
-  - eapply Reg_grow_q; [| | |exact R0]; auto. simpl. intros k Hq.
+  - eapply Reg_grow_q; [| | |exact R0]; auto. simpl. intros k j Hq.
     apply in_app_or in Hq; destruct Hq as [Hq|Hq]; auto. unfold done_cbs in Hq; destruct cb; simpl in Hq; intuition discriminate.
   - eapply Reg_grow_q; [| | |exact R0]; auto.
   - eapply Reg_grow_q; [| | |exact R0]; auto.
@@ -1568,14 +1576,9 @@ Proof. intros R. unfold step1. destruct (s_q s) eqn:Eq; auto. apply Reg_run_item
 Lemma Reg_iter n s : Reg s -> Reg (iter kd cb n s).
 Proof. revert s; induction n; simpl; auto. intros; apply IHn. apply Reg_step1; auto. Qed.
 
-(* the discipline: a peer is not re-opened while the remove_writer callback of its previous (finished)
-   writer is still in the ready queue *)
-Definition ok_op (s : state) (o : op) : Prop :=
-  match o with Open k => ~ In (QRemove k) (s_q s) | _ => True end.
-
-Lemma Reg_open k s : Inv s -> Reg s -> ~ In (QRemove k) (s_q s) -> Reg (fst (open_writer kd k s)).
+Lemma Reg_open k s : Inv s -> Reg s -> Reg (fst (open_writer kd k s)).
 Proof.
-  intros I (R1 & R2 & R3 & R4) Hno. unfold open_writer. destruct (file_exists kd s); simpl; [repeat split; auto|].
+  intros I (R1 & R2 & R3 & R4). unfold open_writer. destruct (file_exists kd s); simpl; [repeat split; auto|].
   match goal with |- context [if ?c then _ else _] => destruct c eqn:Busy end; simpl; [repeat split; auto|].
   unfold Reg; simpl. repeat split.
   - apply NoDup_map_set; auto.
@@ -1588,18 +1591,22 @@ Proof.
     + rewrite nth_error_app2 in Hn by auto. destruct (i - length (s_ws s))%nat as [|n0] eqn:En; simpl in Hn.
       * inversion Hn; subst w. simpl. replace i with (length (s_ws s)) by lia. apply In_map_set_new.
       * destruct n0; discriminate.
-  - intros k' j w Hq Hm Hn. apply In_map_set in Hm; auto. destruct Hm as [(-> & ->)|(Hne & Hm)]; [contradiction|].
-    pose proof (R4 _ _ Hm) as Hj. rewrite nth_error_app1 in Hn by auto. eapply R3; eauto.
+  - intros k' j Hq. destruct (R3 k' j Hq) as (w0 & N0 & D0). exists w0. split; auto.
+    rewrite nth_error_app1; auto. apply nth_error_Some. congruence.
   - intros k' j Hm. rewrite app_length. simpl. apply In_map_set in Hm; auto.
     destruct Hm as [(-> & ->)|(Hne & Hm)]; [lia|]. pose proof (R4 _ _ Hm). lia.
 Qed.
 
 Lemma Reg_close_blob s : Reg s -> Reg (close_blob s).
-Proof. intros R. apply Reg_of_NP. apply NP_close_blob; auto. reflexivity. Qed.
-
-Lemma Reg_step o s : Inv s -> Reg s -> ok_op s o -> Reg (fst (step o s)).
 Proof.
-  intros I R Ok. destruct o; simpl in *.
+  intros R. pose proof (NP_close_blob s R) as Np. unfold close_blob in *.
+  apply Reg_clear_map; [|eapply NP_ws; [|exact Np]; reflexivity].
+  apply Reg_fold; auto. intros x st Hst. eapply Reg_app_w; eauto. apply (wtrans_cancel None).
+Qed.
+
+Lemma Reg_step o s : Inv s -> Reg s -> Reg (fst (step o s)).
+Proof.
+  intros I R. destruct o; simpl in *.
   - eapply Reg_grow_q; [| | |exact R]; unfold set_length; destruct (s_len s); auto;
       destruct ((0 <=? n)%Z && (n <=? Z.of_N MAX_BLOB_SIZE)%Z); auto.
   - apply Reg_open; auto.
@@ -1609,18 +1616,12 @@ Proof.
   - apply Reg_iter; auto.
   - apply Reg_iter; auto.
   - eapply Reg_grow_q; [| | |exact R]; unfold io_done; destruct (s_io s); auto.
-    simpl. intros k Hq. apply in_app_or in Hq; destruct Hq as [Hq|Hq]; auto. simpl in Hq; intuition discriminate.
+    simpl. intros k j Hq. apply in_app_or in Hq; destruct Hq as [Hq|Hq]; auto. simpl in Hq; intuition discriminate.
 Qed.
 
-Fixpoint disciplined (ops : list op) (s : state) : Prop :=
-  match ops with
-  | [] => True
-  | o :: r => ok_op s o /\ disciplined r (fst (step o s))
-  end.
-
-Lemma Reg_run ops : forall s, Inv s -> Reg s -> disciplined ops s -> Reg (run ops s).
+Lemma Reg_run ops : forall s, Inv s -> Reg s -> Reg (run ops s).
 Proof.
-  induction ops; simpl; auto. intros s I R (Ok & D). apply IHops; auto. apply Inv_step; auto. apply Reg_step; auto.
+  induction ops; simpl; auto. intros s I R. apply IHops; auto. apply Inv_step; auto. apply Reg_step; auto.
 Qed.
 
 (* the winner's callback closes every registered writer: nothing stays pending *)
@@ -1728,10 +1729,9 @@ Proof.
       change (cnt is_up []) with 0%nat in X. destruct cb; simpl in X; lia.
 Qed.
 
-(* under the re-open discipline the winner also shuts every other writer down *)
+(* the winner also shuts every other writer down *)
 Lemma first_copy_closes_others ops i w d L :
   let s := run ops init in
-  disciplined ops init ->
   nth_error (s_ws s) i = Some w -> w_open w = true -> w_fut w = FPending -> s_len s = Some L -> (0 < L)%N ->
   N.of_nat (length (w_buf w ++ d)) = L -> H (w_buf w ++ d) = h ->
   let s1 := fst (step (Write i d) s) in
@@ -1741,7 +1741,7 @@ Lemma first_copy_closes_others ops i w d L :
   /\ (forall j wj, nth_error (s_ws s4) j = Some wj -> w_open wj = false /\ w_fut wj <> FPending)
   /\ length (s_ws s4) = length (s_ws s).
 Proof.
-  intros s Di Hn O P El Lp Ln Hh s1 s2 s4.
+  intros s Hn O P El Lp Ln Hh s1 s2 s4.
   destruct (winning_write ops i w d L Hn O P El Lp Ln Hh) as (_ & (w1 & N1 & F1 & _) & Q1).
   fold s in N1, Q1. fold s1 in N1, Q1.
   assert (R1 : s1 = run (ops ++ [Write i d]) init) by (rewrite run_app; reflexivity).
@@ -2021,6 +2021,270 @@ Proof.
     destruct (B eq_refl E) as (_ & X). apply X; auto.
 Qed.
 
+(* ------------------------------------------------------------------------------------------ *)
+(* exactly those bytes: while nothing is being saved, the first queued writer_finished_callback *)
+(* that carries a result decides what is stored                                               *)
+(* ------------------------------------------------------------------------------------------ *)
+Section Exact.
+Variable b : bytes.      (* the bytes of the first complete correct copy *)
+
+(* writer j finished without a result *)
+Definition loser (s : state) (j : nat) : Prop :=
+  exists wj, nth_error (s_ws s) j = Some wj /\ fut_done (w_fut wj) = true /\ forall x, w_fut wj <> FOk x.
+Definition losers (s : state) (pre : list qitem) : Prop :=
+  Forall (fun it => match it with QWfc j => loser s j | _ => True end) pre.
+
+Definition Ex (s : state) : Prop :=
+  (forall x, In (QTask x) (s_q s) -> x = b)
+  /\ (forall x, s_io s = Some x -> x = b)
+  /\ (forall x, s_store s = Some x -> x = b)
+  /\ (s_verified s = false -> s_writing s = false ->
+      exists pre post i w, s_q s = pre ++ QWfc i :: post /\ nth_error (s_ws s) i = Some w /\ w_fut w = FOk b
+                           /\ losers s pre).
+
+Lemma loser_mono s s' j : wmono s s' -> loser s j -> loser s' j.
+Proof.
+  intros M (wj & A & B & C). destruct (M j wj A) as (w' & N' & _ & F' & _).
+  exists w'. rewrite F' by auto. auto.
+Qed.
+
+Lemma losers_mono s s' pre : wmono s s' -> losers s pre -> losers s' pre.
+Proof.
+  intros M L. unfold losers in *. eapply Forall_impl; [|exact L]. intros [] X; auto. eapply loser_mono; eauto.
+Qed.
+
+Lemma plain_not_task l x : Forall plain l -> ~ In (QTask x) l.
+Proof. intros F Hin. rewrite Forall_forall in F. apply (F _ Hin). Qed.
+
+Lemma Ex_neutral s s' : same_ctl s s' -> wmono s s' -> Ex s -> Ex s'.
+Proof.
+  intros (A1 & A2 & A3 & A4 & _ & _ & l & A7 & A8) M (E1 & E2 & E3 & E4).
+  unfold Ex. rewrite A1, A2, A3, A4, A7. repeat split; auto.
+  - intros x Hin. apply in_app_or in Hin. destruct Hin as [Hin|Hin]; auto. exfalso; eapply plain_not_task; eauto.
+  - intros V W. destruct (E4 V W) as (pre & post & i & w & Q & N & F & L).
+    destruct (M i w N) as (w' & N' & _ & F' & _).
+    exists pre, (post ++ l), i, w'. repeat split; auto.
+    + rewrite Q. rewrite <- app_assoc. reflexivity.
+    + rewrite F' by (rewrite F; auto). auto.
+    + eapply losers_mono; eauto.
+Qed.
+
+Definition idle (s : state) : Prop := s_verified s = false /\ s_writing s = false.
+
+Lemma idle_head_plain s p r : Inv2 s -> idle s -> s_q s = p :: r -> plain p.
+Proof.
+  intros (I1 & I2 & I3 & I4) (V & W) Eq. rewrite Eq, V, W in *.
+  rewrite stage_cons in I1. rewrite (cnt_cons is_cp), (cnt_cons is_up) in I3.
+  assert (U : cnt is_up [p] = 0%nat /\ cnt is_up r = 0%nat).
+  { unfold stage_q in I1. rewrite (cnt_cons is_up) in *. simpl in I1.
+    destruct p; cbv [cnt filter is_up length] in *; simpl in *; lia. }
+  destruct U as (U1 & U2). rewrite U1, U2 in I3.
+  destruct p; simpl; auto; cbv [stage_q cnt filter is_task is_ss is_wk is_up is_cp length] in I1, I3; simpl in *;
+    try lia; destruct cb; simpl in *; lia.
+Qed.
+
+Lemma idle_no_store s : Inv2 s -> idle s -> s_store s = None /\ s_io s = None.
+Proof.
+  intros (I1 & _ & _ & I4) (V & W). split.
+  - destruct (s_store s) eqn:E; auto. destruct I4 as [X|X]; congruence.
+  - unfold io01 in I1. rewrite W in I1. destruct (s_io s); auto. simpl in I1. lia.
+Qed.
+
+Lemma Ex_sub s r : (forall it, In it r -> In it (s_q s)) ->
+  (s_verified s = false -> s_writing s = false -> False) -> Ex s -> Ex (set_q r s).
+Proof.
+  intros Q NI (E1 & E2 & E3 & E4). unfold Ex; simpl. repeat split; auto. intros V W. exfalso; auto.
+Qed.
+
+Lemma save_verified_busy x s : (s_verified s = true \/ s_writing s = true) -> save_verified kd x s = s.
+Proof.
+  intros [V|W]; unfold save_verified. rewrite V; auto.
+  destruct (s_verified s); auto. unfold writeable. rewrite W. auto.
+Qed.
+
+(* the data part of [Ex] *)
+Definition Exd (s : state) : Prop :=
+  (forall x, In (QTask x) (s_q s) -> x = b) /\ (forall x, s_io s = Some x -> x = b) /\ (forall x, s_store s = Some x -> x = b).
+
+Definition busy (s : state) : Prop := s_verified s = true \/ s_writing s = true.
+
+Lemma Ex_busy s : busy s -> Exd s -> Ex s.
+Proof.
+  intros Bz (D1 & D2 & D3). unfold Ex. repeat split; auto. intros V W. destruct Bz; congruence.
+Qed.
+
+Lemma Exd_same_ctl s s' : same_ctl s s' -> Exd s -> Exd s'.
+Proof.
+  intros (_ & _ & A3 & A4 & _ & _ & l & A7 & A8) (D1 & D2 & D3). unfold Exd. rewrite A3, A4, A7.
+  repeat split; auto. intros x Hin. apply in_app_or in Hin. destruct Hin as [Hin|Hin]; auto.
+  exfalso; eapply plain_not_task; eauto.
+Qed.
+
+Lemma Exd_enq l s : (forall x, ~ In (QTask x) l) -> Exd s -> Exd (enq l s).
+Proof.
+  intros Hl (D1 & D2 & D3). unfold Exd, enq; simpl. repeat split; auto.
+  intros x Hin. apply in_app_or in Hin. destruct Hin as [Hin|Hin]; auto. exfalso; eapply Hl; eauto.
+Qed.
+
+Lemma Exd_enq_task s : Exd s -> Exd (enq [QTask b] s).
+Proof.
+  intros (D1 & D2 & D3). unfold Exd, enq; simpl. repeat split; auto.
+  intros x Hin. apply in_app_or in Hin. destruct Hin as [Hin|[Hin|[]]]; auto. inversion Hin; auto.
+Qed.
+
+Lemma Exd_set_writing v s : Exd s -> Exd (set_writing v s).
+Proof. intros (D1 & D2 & D3). repeat split; auto. Qed.
+
+Lemma done_cbs_no_task x : ~ In (QTask x) (done_cbs cb).
+Proof. unfold done_cbs. destruct cb; simpl; intuition discriminate. Qed.
+
+Lemma Exd_run_item it s : busy s -> Exd s -> (forall x, it = QTask x -> x = b) -> Exd (run_item kd cb it s).
+Proof.
+  intros Bz D Tk. destruct it; simpl.
+  - eapply Exd_same_ctl; [apply same_ctl_app_w|auto].
+  - eapply Exd_same_ctl; [apply same_ctl_set_map|auto].
+  - destruct (nth_error (s_ws s) i); auto. destruct (w_fut w); auto.
+    rewrite save_verified_busy.
+    + eapply Exd_same_ctl; [apply same_ctl_close_others|auto].
+    + destruct (same_ctl_close_others i s) as (X1 & X2 & _). rewrite X1, X2. exact Bz.
+  - rewrite (Tk b0 eq_refl). destruct D as (D1 & D2 & D3). destruct kd.
+    + unfold Exd; simpl. repeat split; auto. intros x E0. inversion E0; auto.
+    + apply Exd_enq. apply done_cbs_no_task. destruct (s_store s) eqn:Es.
+      * repeat split; auto. intros x E0. apply D3. congruence.
+      * unfold Exd; simpl. repeat split; auto. intros x E0. inversion E0; auto.
+  - apply Exd_enq; auto. intros x Hin. simpl in Hin. intuition discriminate.
+  - auto.
+  - apply Exd_enq; auto. apply done_cbs_no_task.
+  - destruct D as (D1 & D2 & D3). repeat split; auto.
+  - destruct D as (D1 & D2 & D3). repeat split; auto.
+Qed.
+
+Lemma busy_run_item it s : busy s -> busy (run_item kd cb it s).
+Proof.
+  intros [V|W]. left; apply run_item_verified; auto.
+  destruct (run_item_writing it s W); [right|left]; auto.
+Qed.
+
+Lemma Ex_run_item it r s : Inv2 s -> Ex s -> s_q s = it :: r -> Ex (run_item kd cb it (set_q r s)).
+Proof.
+  intros I2 E Eq.
+  destruct (s_verified s) eqn:V; [|destruct (s_writing s) eqn:W].
+  1, 2: apply Ex_busy; [apply busy_run_item; unfold busy; simpl; auto|].
+  1, 2: apply Exd_run_item; [unfold busy; simpl; auto| |intros x ->; destruct E as (E1 & _); apply E1; rewrite Eq; left; auto].
+  1, 2: destruct E as (E1 & E2 & E3 & _); unfold Exd; simpl; repeat split; auto; intros x Hx; apply E1; rewrite Eq; right; auto.
+  (* idle: the head of the queue is a plain callback; the first result-bearing one is ours *)
+  assert (Id : idle s) by (split; auto).
+  pose proof (idle_head_plain s it r I2 Id Eq) as Pl.
+  destruct (idle_no_store s I2 Id) as (Sn & Ion).
+  destruct E as (E1 & E2 & E3 & E4). destruct (E4 V W) as (pre & post & i & w & Q & N & F & L).
+  rewrite Eq in Q. destruct pre as [|p pre'].
+  - (* our callback runs now *)
+    simpl in Q. inversion Q; subst it r. simpl. change (s_ws (set_q post s)) with (s_ws s). rewrite N, F.
+    destruct (same_ctl_close_others i (set_q post s)) as (X1 & X2 & X3 & X4 & _ & _ & l & X7 & X8).
+    change (s_writing (set_q post s)) with (s_writing s) in X1. change (s_verified (set_q post s)) with (s_verified s) in X2.
+    change (s_io (set_q post s)) with (s_io s) in X3. change (s_store (set_q post s)) with (s_store s) in X4.
+    change (s_q (set_q post s)) with post in X7.
+    assert (Wr : writeable kd (close_others i (set_q post s)) = true).
+    { unfold writeable, file_exists. rewrite X1, X4, W, Sn. destruct kd; auto. }
+    unfold save_verified. rewrite X2, V, Wr. apply Ex_busy. right; reflexivity.
+    apply Exd_enq_task. apply Exd_set_writing. eapply Exd_same_ctl; [apply same_ctl_close_others|].
+    unfold Exd; simpl. repeat split; auto. intros x Hx. apply E1. rewrite Eq; right; auto.
+  - (* a loser's (or a plain) callback runs; ours moves one place forward *)
+    simpl in Q. inversion Q; subst p r.
+    assert (E0 : Ex (set_q (pre' ++ QWfc i :: post) s)).
+    { unfold Ex; simpl. repeat split; auto.
+      - intros x Hx. apply E1. rewrite Eq; right; auto.
+      - intros _ _. exists pre', post, i, w. repeat split; auto. inversion L; auto. }
+    inversion L as [|? ? Lh Lt]; subst.
+    destruct it; simpl in Pl; try contradiction; simpl.
+    + eapply Ex_neutral; [apply same_ctl_app_w|eapply wmono_app_w; apply (wtrans_close None)|auto].
+    + eapply Ex_neutral; [apply same_ctl_set_map|apply wmono_ws; reflexivity|auto].
+    + destruct Lh as (wj & A & B & C). change (s_ws (set_q (pre' ++ QWfc i :: post) s)) with (s_ws s).
+      rewrite A. destruct (w_fut wj) eqn:Ef; auto. exfalso. eapply C; eauto.
+    + auto.
+Qed.
+
+Lemma Ex_step1 s : Inv2 s -> Ex s -> Ex (step1 kd cb s).
+Proof. intros I2 E. unfold step1. destruct (s_q s) eqn:Eq; auto. apply Ex_run_item; auto. Qed.
+
+Lemma Ex_iter n s : Inv2 s -> Ex s -> Ex (iter kd cb n s).
+Proof. revert s; induction n; simpl; auto. intros. apply IHn. apply Inv2_step1; auto. apply Ex_step1; auto. Qed.
+
+Lemma Ex_step o s : Inv2 s -> Ex s -> Ex (fst (step o s)).
+Proof.
+  intros I2 E. destruct o; simpl.
+  - unfold set_length. destruct (s_len s); auto.
+    destruct ((0 <=? n)%Z && (n <=? Z.of_N MAX_BLOB_SIZE)%Z); auto.
+  - eapply Ex_neutral; [apply same_ctl_open|apply (wmono_step (Open k))|auto].
+  - eapply Ex_neutral; [apply same_ctl_write|apply (wmono_step (Write i d))|auto].
+  - eapply Ex_neutral; [apply same_ctl_app_w|apply (wmono_step (CloseW i))|auto].
+  - eapply Ex_neutral; [apply same_ctl_close_blob|apply wmono_close_blob|auto].
+  - apply Ex_iter; auto.
+  - apply Ex_iter; auto.
+  - unfold io_done. destruct (s_io s) eqn:Ei; auto.
+    destruct E as (E1 & E2 & E3 & E4). unfold Ex, enq; simpl. repeat split; auto; try (intros; discriminate).
+    + intros x Hin. apply in_app_or in Hin. destruct Hin as [Hin|Hin]; auto. simpl in Hin; intuition discriminate.
+    + intros x Ex0. inversion Ex0; subst. auto.
+    + intros V W. exfalso. destruct I2 as (I1 & _). unfold io01 in I1. rewrite Ei, W in I1. simpl in I1. lia.
+Qed.
+
+Lemma Ex_run ops s : Inv2 s -> Ex s -> Ex (run ops s).
+Proof.
+  revert s; induction ops; simpl; auto. intros. apply IHops. apply Inv2_step; auto. apply Ex_step; auto.
+Qed.
+
+End Exact.
+
+Lemma cnt_zero_in p q it : cnt p q = 0%nat -> In it q -> p it = false.
+Proof.
+  unfold cnt. induction q; simpl; [tauto|]. intros Hc [->|Hin].
+  - destruct (p it); auto. simpl in Hc. discriminate.
+  - apply IHq; auto. destruct (p a); auto. simpl in Hc. discriminate.
+Qed.
+
+(* "exactly those bytes": if nothing is being saved and no other writer's result is waiting in the queue when a
+   live writer completes a correct copy t, then nothing but t is ever stored afterwards *)
+Lemma first_copy_exact ops i w d L :
+  let s := run ops init in
+  nth_error (s_ws s) i = Some w -> w_open w = true -> w_fut w = FPending -> s_len s = Some L -> (0 < L)%N ->
+  N.of_nat (length (w_buf w ++ d)) = L -> H (w_buf w ++ d) = h ->
+  s_verified s = false -> s_writing s = false ->
+  (forall j, In (QWfc j) (s_q s) -> loser s j) ->
+  let s1 := fst (step (Write i d) s) in
+  forall ops' x, s_store (run ops' s1) = Some x -> x = w_buf w ++ d.
+Proof.
+  intros s Hn O P El Lp Ln Hh V W Lo s1 ops' x.
+  destruct (winning_write ops i w d L Hn O P El Lp Ln Hh) as (_ & (w1 & N1 & F1 & _) & _).
+  fold s in N1. fold s1 in N1.
+  destruct (reach_all ops) as (_ & I2 & _). fold s in I2.
+  assert (I21 : Inv2 s1) by (apply Inv2_step; auto).
+  destruct (idle_no_store s I2 (conj V W)) as (Sn & Ion).
+  assert (Q1 : s_q s1 = s_q s ++ cbs i (w_key w)).
+  { unfold s1. simpl. unfold write. rewrite Hn. simpl. unfold app_w. rewrite Hn.
+    destruct (reach_all ops) as (I & _). fold s in I. destruct I as (_ & I2' & _).
+    destruct (Forall_nth _ _ _ _ I2' Hn) as (_ & B & _). destruct (B O P) as (Sb & _).
+    assert (Lv : live L w) by (repeat split; auto; lia).
+    rewrite El. rewrite wr_write_live by auto. unfold live_result.
+    destruct (N.ltb_spec L (N.of_nat (length (w_buf w ++ d)))); [lia|].
+    destruct (N.eqb_spec (N.of_nat (length (w_buf w ++ d))) L); [|contradiction].
+    rewrite <- Hh. rewrite bytes_eqb_refl. reflexivity. }
+  destruct (same_ctl_write i d s) as (_ & _ & A3 & A4 & _).
+  assert (E : Ex (w_buf w ++ d) s1).
+  change (fst (write H h i d s)) with s1 in A3, A4.
+  { unfold Ex. rewrite A3, A4, Sn, Ion. repeat split; try (intros; discriminate).
+    - intros y Hin. rewrite Q1 in Hin. apply in_app_or in Hin. destruct Hin as [Hin|Hin].
+      + exfalso. destruct I2 as (I1 & _). unfold io01 in I1. rewrite W, Ion in I1. unfold stage_q in I1.
+        assert (Z : cnt is_task (s_q s) = 0%nat) by (simpl in I1; lia).
+        pose proof (cnt_zero_in _ _ _ Z Hin). discriminate.
+      + simpl in Hin. intuition discriminate.
+    - intros _ _. exists (s_q s ++ [QClose i; QRemove (w_key w) i]), [], i, w1. repeat split; auto.
+      + rewrite Q1. unfold cbs. rewrite <- app_assoc. reflexivity.
+      + unfold losers. apply Forall_app. split.
+        * apply Forall_forall. intros it Hin. destruct it; auto. eapply loser_mono; [apply (wmono_step (Write i d))|auto].
+        * repeat constructor. }
+  intros Es. pose proof (Ex_run (w_buf w ++ d) ops' s1 I21 E) as (_ & _ & E3 & _). auto.
+Qed.
+
 End C01.
 
 (* ------------------------------------------------------------------------------------------ *)
@@ -2037,20 +2301,41 @@ Definition ex_stale : list op :=
 
 Lemma ex_hypotheses :
   let s := run ex_Hid ex_nm KFile true ex_ops1 init in
-  disciplined ex_Hid ex_nm KFile true ex_ops1 init
-  /\ (exists w, nth_error (s_ws s) 1 = Some w /\ w_open w = true /\ w_fut w = FPending
-                /\ w_buf w = [Byte.x01; Byte.x02]) /\ s_len s = Some 3%N.
-Proof.
-  vm_compute. split; [|split; [eexists; repeat split|reflexivity]].
-  repeat split; auto; intros X; repeat (destruct X as [X|X]; try discriminate); auto.
-Qed.
+  (exists w, nth_error (s_ws s) 1 = Some w /\ w_open w = true /\ w_fut w = FPending
+                /\ w_buf w = [Byte.x01; Byte.x02]) /\ s_len s = Some 3%N
+  /\ s_verified s = false /\ s_writing s = false /\ s_q s = [].
+Proof. vm_compute. split; [eexists; repeat split|repeat split]. Qed.
 
-Lemma ex_stale_orphan :
-  let s := run ex_Hid ex_nm KFile true ex_stale init in
-  (s_verified s, map w_open (s_ws s), map w_fut (s_ws s))
+(* ------------------------------------------------------------------------------------------ *)
+(* the behaviour BEFORE fix 597bcef (remove_writer deleted writers[key] whoever was registered), kept as a  *)
+(* model of the old code so that the finding stays machine-checked                            *)
+(* ------------------------------------------------------------------------------------------ *)
+Definition run_item_old (H : bytes -> bytes) (h : bytes) (kd : kind) (cb : bool) (it : qitem) (s : state) : state :=
+  match it with
+  | QRemove k _ => set_map (map_del k (s_map s)) s
+  | _ => run_item kd cb it s
+  end.
+Definition step1_old H h kd cb (s : state) : state :=
+  match s_q s with [] => s | it :: r => run_item_old H h kd cb it (set_q r s) end.
+Fixpoint iter_old H h kd cb (n : nat) (s : state) : state :=
+  match n with O => s | S m => iter_old H h kd cb m (step1_old H h kd cb s) end.
+Definition step_old H h kd cb (o : op) (s : state) : state :=
+  match o with
+  | Tick => iter_old H h kd cb (length (s_q s)) s
+  | Drain => iter_old H h kd cb (fuel s) s
+  | _ => fst (step H h kd cb o s)
+  end.
+Definition run_old H h kd cb (ops : list op) (s : state) : state :=
+  fold_left (fun st o => step_old H h kd cb o st) ops s.
+
+(* peer 1 fails, is opened again before the loop ran; the stale remove_writer of the failed writer unregistered
+   the NEW writer in the old code, so that writer 1 was neither closed nor cancelled when peer 2 delivered the
+   blob; the repaired model closes it *)
+Lemma stale_reopen_old_vs_new :
+  let so := run_old ex_Hid ex_nm KFile true ex_stale init in
+  let sn := run ex_Hid ex_nm KFile true ex_stale init in
+  (s_verified so, map w_open (s_ws so), map w_fut (s_ws so))
     = (true, [false; true; false], [FErrLen; FPending; FOk ex_nm])
-  /\ ~ disciplined ex_Hid ex_nm KFile true ex_stale init.
-Proof.
-  split. vm_compute. reflexivity.
-  intros D. vm_compute in D. destruct D as (_ & _ & _ & X & _). apply X. right. left. reflexivity.
-Qed.
+  /\ (s_verified sn, map w_open (s_ws sn), map w_fut (s_ws sn))
+    = (true, [false; false; false], [FErrLen; FCancelled; FOk ex_nm]).
+Proof. split; vm_compute; reflexivity. Qed.
